@@ -81,3 +81,20 @@ package minruntime
 //@   ensures [resolved] queue != nil && !old(queue.UID in r.preemptMinRuntimeCache) ==> result0.Duration == preemptMR(r, queue) && result1 == nil
 //@   ensures queue != nil ==> result1 == nil
 //@ end
+
+// Path from the top-level ancestor down to the queue itself: consecutive entries are parent/child,
+// the first entry has no (known) parent, the last entry is the queue.
+//@ define isPath(r *resolver, p []*queue_info.QueueInfo, q *queue_info.QueueInfo) bool = len(p) >= 1 && p[len(p) - 1] == q && parentOf(r, p[0]) == nil && (forall i int :: 0 <= i && i < len(p) ==> p[i] != nil) && (forall i int :: 1 <= i && i < len(p) ==> p[i - 1] == parentOf(r, p[i]))
+
+//@ func (*resolver).getQueueHierarchyPath
+//@   props C06
+//@   requires r != nil && queue != nil && acyclic(r)
+//@   pure
+//@   loop 1
+//@     invariant len(hierarchyPath) == 0 ==> currentQueue == queue
+//@     invariant len(hierarchyPath) > 0 ==> hierarchyPath[len(hierarchyPath) - 1] == queue && currentQueue == parentOf(r, hierarchyPath[0])
+//@     invariant forall i int :: 0 <= i && i < len(hierarchyPath) ==> hierarchyPath[i] != nil
+//@     invariant forall i int :: 1 <= i && i < len(hierarchyPath) ==> hierarchyPath[i - 1] == parentOf(r, hierarchyPath[i])
+//@     decreases ite(currentQueue == nil, 0, rank(currentQueue) + 1)
+//@   ensures [ancestorChain] isPath(r, result, queue)
+//@ end
